@@ -261,6 +261,8 @@ var subjCorpus = []string{
 	"S0,N1,S1,N2,U0,N1,C,S2", "S0,S1,N1,U1,N2,E1,S2,N1,C,E2",
 	"N1,S0,U0,N2,N1,S1,N2,U1,N1,S2,C", "S0,N1,C,U0,U0", "S0,U0,U0,N1,S1,C",
 	"N1,N2,N3,N1,S0,N2,S1,E1,S2",
+	// a second, different terminal after the first one: dropped, and the stored terminal stays the first
+	"S0,E1,E2,S1", "E1,E2,S0", "S0,C,E2,S1", "N1,E1,C,S0", "S0,N1,E2,N2,E1,C,S1,S2", "N1,C,E1,S0,E2,S1",
 }
 
 func genSubjectCases(tier string, seed int64, only string) []*Case {
